@@ -84,6 +84,23 @@ def current_spec(rng, dev, o, kind, strength=None):
     if kind == "pulse":
         pats = {2: [1, -1], 3: [3, -1, -2], 4: [2, 1, -4, 1]}[n]
         return {"kind": "pulse", "values": {nm: I * p for nm, p in zip(names, pats)}, "t_off": 0.45 * o["solve_time"]}
+    if kind == "switch":
+        # the input moves from one terminal to the next while the others keep their current: every terminal in turn is
+        # the one whose current does NOT change at a switch
+        T = o["solve_time"]
+        phases = []
+        for q in names:  # common drain q; the input moves over the other terminals while q keeps -I
+            for p_ in names:
+                if p_ != q:
+                    phases.append({nm: (I if nm == p_ else (-I if nm == q else 0.0)) for nm in names})
+        m = len(phases) - 1
+        return {"kind": "switch", "phases": phases, "times": [T * (j + 1) / (m + 1) for j in range(m)]}
+    if kind == "stair":
+        # a slow staircase: 0.1 % steps
+        T = o["solve_time"]
+        pats = {2: [1, -1], 3: [3, -1, -2], 4: [2, 1, -4, 1]}[n]
+        m = 12
+        return {"kind": "switch", "phases": [{nm: I * p * (1 + 1e-3 * j) for nm, p in zip(names, pats)} for j in range(m + 1)], "times": [T * (j + 1) / (m + 1) for j in range(m)]}
     if kind == "callable":
         pats = {2: [1, -1], 3: [3, -1, -2], 4: [2, 1, -4, 1]}[n]
         return {"kind": "callable", "values": {nm: I * p for nm, p in zip(names, pats)}, "amp": 0.5, "w": 2 * math.pi / (0.4 * o["solve_time"])}
